@@ -378,3 +378,24 @@ def features(text: str) -> dict:
                     walk(c, d + 1)
         walk(node.body, 0)
     return f
+
+
+def repeat_helper(ms):
+    """A helper definition repeated verbatim in the first two named components (accepted by the loader) and used in
+    both.  -> True if the model has two named components."""
+    comps = []
+    for a in ms.assigns:
+        if a[2] and a[2] not in comps:
+            comps.append(a[2])
+    if len(comps) < 2:
+        return False
+    new, done = [], set()
+    for (n_, r_, c_, t_) in ms.assigns:
+        if c_ in comps[:2] and c_ not in done:
+            done.add(c_)
+            new.append(("RTF_h", "8.314 * 310.0 / 96.485", c_, None))
+            new.append((n_, f"({r_}) + RTF_h * 0.001", c_, t_))
+        else:
+            new.append((n_, r_, c_, t_))
+    ms.assigns = new
+    return True
